@@ -665,6 +665,29 @@ impl Rasterizer {
     }
 }
 
+/// Verification hook: runs `add_edge` for one quadratic curve edge on a scratch rasterizer and
+/// steps that edge alone the way `rasterize` does. Returns its subdivision shift, its first sample
+/// row and the 16.16 x position it has on every sample row it is active on (`None` if the edge
+/// is dropped).
+#[cfg(raqote_verif)]
+pub fn verif_curve_edge(start: Point, control: Point, end: Point, width: i32, height: i32) -> Option<(i32, i32, Vec<i32>)> {
+    let mut r = Rasterizer::new(width, height);
+    r.add_edge(start, end, true, control);
+    let y0 = r.edge_starts.iter().position(|e| e.is_some())?;
+    let e = unsafe { r.edge_starts[y0].unwrap().as_mut() };
+    let mut xs = vec![e.fullx];
+    let mut cury = y0 as i32;
+    loop {
+        e.step(cury);
+        if cury + 1 >= e.y2 {
+            break;
+        }
+        xs.push(e.fullx);
+        cury += 1;
+    }
+    Some((e.shift, y0 as i32, xs))
+}
+
 #[cfg(raqote_verif)]
 impl Rasterizer {
     /// Verification hook: true when no edge is queued or active and the
